@@ -527,11 +527,15 @@ func (fr *Frame) instr(in ssa.Instruction) bool {
 			if cv, isConv := in.(*ssa.Convert); isConv {
 				from, to := c.sortOf(cv.X.Type()), c.sortOf(cv.Type())
 				if from == "Str" && to == "Slice" {
-					// []byte(s): a fresh slice of the string's length
+					// []byte(s): a fresh slice of the string's length holding its bytes
 					c.assert(implies(fr.pc, "(= (slen "+n+") (strlen "+fr.val(cv.X)+"))"))
+					c.needStrOfBytes()
+					c.assert(implies(fr.pc, "(= (strOfBytes "+n+") "+fr.val(cv.X)+")"))
 				}
 				if from == "Slice" && to == "Str" {
 					c.assert(implies(fr.pc, "(= (strlen "+n+") (slen "+fr.val(cv.X)+"))"))
+					c.needStrOfBytes()
+					c.assert(implies(fr.pc, "(= "+n+" (strOfBytes "+fr.val(cv.X)+"))"))
 				}
 			}
 			break
@@ -1527,5 +1531,13 @@ func (fr *Frame) freshSyncMaps(ref Term, t types.Type) {
 		comp := c.comp(fr.st, ghostCompName(g), s)
 		c.assert("(forall ((k Iface)) (! (not (select (select " + comp + " (" + fp + " " + ref + ")) k)) :pattern ((select (select " + comp + " (" + fp + " " + ref + ")) k))))")
 		c.assumed["a sync.Map inside a freshly allocated struct is empty"] = true
+	}
+}
+
+func (c *Ctx) needStrOfBytes() {
+	if !c.declared["strOfBytes"] {
+		c.declared["strOfBytes"] = true
+		c.emit("(declare-fun strOfBytes (Slice) Str)")
+		c.assumed["string <-> []byte conversions are related by an uninterpreted content function (the byte slice is not mutated in between)"] = true
 	}
 }
